@@ -50,6 +50,7 @@ theorem step_frame (a : Arr) (op : Op) (h : isWrite op = false) :
   | getCoeffs => simp [step]
   | getOrigin => simp [step]
   | rawDump => simp [step]
+  | linkTicks i => simp only [step]; split <;> simp
   | write v => simp [isWrite] at h
   | reopen => simp [step]
 
